@@ -38,14 +38,15 @@ def correspondence(ctx, corr):
     lines = []
     cases = []
     NAMES = ['ELLIPSIS', 'NORMALIZE_WHITESPACE', 'IGNORE_WHITESPACE', 'NORMALIZE_REPR', 'DONT_ACCEPT_BLANKLINE', 'IGNORE_EXCEPTION_DETAIL']
-    FLAGSETS = ['110100', '110100', '000010', '100000', '010100', '000100']
+    FLAGSETS = ['110100', '110100', '000010', '100000', '010100', '000100', '001000', '000000', '111100']
     for _ in range(1500 if ctx.quick else 20000):
         outs = [rng.choice(['a\n', 'b\n', '', 'c\nd\n', '1\n']) for _ in range(rng.randint(0, 3))]
         out = rng.choice(['a\n', '', 'b\n', '1\n', 'c\nd\n'])
-        ev = rng.choice([None, 1, 'a', 'BAD', 'p\nq', "it's", 1.5])
+        ev = rng.choice([None, 1, 'a', 'BAD', 'p\nq', "it's", 1.5, 'a  b', 'a  b'])
         joined = ''.join(outs) + out
         want = rng.choice([joined.strip() or 'a', out.strip() or 'zz', 'a', 'b\na', "'a'", '1', 'c d', 'zz', 'b',
-                           repr(ev) if ev not in (None, 'BAD') else 'a', str(ev) if ev not in (None, 'BAD') else '1'])
+                           repr(ev) if ev not in (None, 'BAD') else 'a', str(ev) if ev not in (None, 'BAD') else '1',
+                           "'a b'", "'a...'", "'ab'", "'a...b'"])
         fl = rng.choice(FLAGSETS)
         cases.append((outs, out, ev, want, fl))
         evs = 'N' if ev is None else ('R' if ev == 'BAD' else 'V' + enc(repr(ev)))
